@@ -52,6 +52,8 @@ type SourceCfg struct {
 	Name    string
 	ChainID uint64
 	Batch   int
+	TwoURLs bool   // the source is configured with two URLs (both reach Node)
+	URL2    string
 	Conc    int
 	Node    *sim.Node
 	URL     string
@@ -119,7 +121,13 @@ func NewWorld(t fataler, sources []*SourceCfg, decls []*refmodel.Decl, opts ...W
 		}
 		s.Node.ChainID = s.ChainID
 		s.URL = ns.Attach(s.Node, "")
-		srcJSON = append(srcJSON, map[string]any{"name": s.Name, "chain_id": s.ChainID, "url": s.URL, "batch_size": s.Batch, "concurrency": s.Conc, "poll_duration": "1h"})
+		sj := map[string]any{"name": s.Name, "chain_id": s.ChainID, "url": s.URL, "batch_size": s.Batch, "concurrency": s.Conc, "poll_duration": "1h"}
+		if s.TwoURLs {
+			// a second endpoint of the same provider: requests rotate over both
+			s.URL2 = ns.Attach(s.Node, "")
+			sj["urls"] = []any{s.URL2}
+		}
+		srcJSON = append(srcJSON, sj)
 	}
 	var igJSON []any
 	for _, d := range decls {
@@ -149,6 +157,13 @@ func NewWorld(t fataler, sources []*SourceCfg, decls []*refmodel.Decl, opts ...W
 		return w, err
 	}
 	return w, nil
+}
+
+func (s *SourceCfg) urls() []string {
+	if s.URL2 != "" {
+		return []string{s.URL, s.URL2}
+	}
+	return []string{s.URL}
 }
 
 func (w *World) source(name string) *SourceCfg {
@@ -308,6 +323,9 @@ func (w *World) Close() {
 	pg, ns := env()
 	for _, s := range w.Sources {
 		ns.Detach(s.URL)
+		if s.URL2 != "" {
+			ns.Detach(s.URL2)
+		}
 	}
 	pg.DropDB(w.dbName)
 }
